@@ -884,7 +884,7 @@ def vd(*kv): return ('d', list(kv))
 
 def z_templates(rng):
     """a family of near-identical objects: returns f(i) -> value"""
-    k = rng.choice(['annot', 'fontdesc', 'page', 'struct', 'widths', 'string', 'hexstring', 'number', 'dest', 'outline', 'mixed'])
+    k = rng.choice(['annot', 'fontdesc', 'page', 'struct', 'widths', 'zeros', 'string', 'hexstring', 'number', 'dest', 'outline', 'mixed'])
     a, b = rng.randint(1, 400), rng.randint(1, 400)
     uri = rng.choice([b'http://example.org/', b'https://www.example.com/a/rather/long/path/to/a/document.html#section-', b'mailto:someone@example.org?subject='])
     if k == 'annot':
@@ -905,6 +905,9 @@ def z_templates(rng):
     if k == 'widths':
         cnt = rng.choice([40, 40, 150])
         return k, lambda i: va(*([vi(500)] * cnt + [vi(i)]))
+    if k == 'zeros':
+        cnt = rng.choice([60, 250])
+        return k, lambda i: vd((b'Id', vi(i)), (b'Data', va(*([vi(0)] * cnt))))
     if k == 'string':
         return k, lambda i: ('s', b'Lorem ipsum dolor sit amet, consectetur adipiscing elit %d (sed do) eiusmod \\ tempor' % i)
     if k == 'hexstring':
@@ -991,21 +994,13 @@ def gen_zfile(rng):
     eol = rng.choice([b'\n', b'\n', b'\r\n', b'\r'])
     shape = rng.choice(['objstm', 'objstm', 'objstm', 'toponly', 'small'])
     tops = {1: vd((b'Type', vn(b'Catalog')), (b'Pages', vref(2))), 2: vd((b'Type', vn(b'Pages')), (b'Kids', va()), (b'Count', vi(0)))}
-    streams = {}
     nxt = 3
-    for _ in range(rng.choice([0, 1, 2])):
-        content = rng.choice([b'BT /F1 12 Tf 72 720 Td (Hello) Tj ET\n' * rng.choice([1, 30]), b'q 1 0 0 1 0 0 cm Q\n' * 50, b''])
-        if rng.random() < 0.6 and content:
-            content = zlib.compress(content, 9)
-            streams[nxt] = ([(b'Filter', vn(b'FlateDecode')), (b'Length', vi(len(content)))], content)
-        else:
-            streams[nxt] = ([(b'Length', vi(len(content)))], content)
-        nxt += 1
     ostms = []     # (container number, members)
     ratios = []
     if shape == 'toponly':
         for num, v in z_members(rng, rng.choice([40, 80, 150]), nxt):
             tops[num] = v
+        nxt = max(tops) + 1
     else:
         for _ in range(rng.choice([1, 1, 2, 3])):
             n = rng.choice([3, 3]) if shape == 'small' else rng.choice([20, 40, 60, 60, 90, 120, 200])
@@ -1013,6 +1008,26 @@ def gen_zfile(rng):
             nxt = max(m[0] for m in ms) + 1
             ostms.append((nxt, ms))
             nxt += 1
+    streams = {}
+    for _ in range(rng.choice([0, 1, 2])):
+        content = rng.choice([b'BT /F1 12 Tf 72 720 Td (Hello) Tj ET\n' * rng.choice([1, 30]), b'q 1 0 0 1 0 0 cm Q\n' * 50, b''])
+        ents = []
+        if rng.random() < 0.6 and content:
+            content = zlib.compress(content, 9)
+            ents.append((b'Filter', vn(b'FlateDecode')))
+        num, nxt = nxt, nxt + 1
+        # Length direct, or a reference to an integer object: a plain one (found while the stream is parsed) or a member of a
+        # compressed object stream (7.5.7 allows it for every stream but an object stream; found after the object streams are expanded)
+        m = rng.random()
+        if m < 0.5:
+            streams[num] = (ents + [(b'Length', vi(len(content)))], content, None)
+        else:
+            ln, nxt = nxt, nxt + 1
+            if m < 0.75 or not ostms:
+                tops[ln] = vi(len(content))
+            else:
+                rng.choice(ostms)[1].append((ln, vi(len(content))))
+            streams[num] = (ents + [(b'Length', vi(len(content)))], content, ln)
     used = set(tops) | set(streams) | set(c for c, _ in ostms) | set(m[0] for _, ms in ostms for m in ms)
     xid = max(used) + 1 + rng.choice([0, 0, 3])
     out = bytearray(b'%PDF-' + rng.choice([b'1.5', b'1.6', b'1.7', b'2.0']) + eol)
@@ -1031,7 +1046,9 @@ def gen_zfile(rng):
             out += spell(tops[num]) + eol
         else:
             if what == 'stream':
-                ents, data = streams[num]
+                ents, data, ln = streams[num]
+                if ln is not None:
+                    ents = [(k, vref(ln) if k == b'Length' else v) for k, v in ents]
             else:
                 ms = dict(ostms)[num]
                 ents, data, plain_len = z_objstm(rng, ms, spell)
@@ -1086,7 +1103,7 @@ def gen_zfile(rng):
     out += b'startxref' + eol + b'%d' % offs[xid] + eol + b'%%EOF' + rng.choice([b'', eol])
     # what the file defines
     objs = dict((n, v_sx(v)) for n, v in tops.items())
-    for n, (ents, data) in streams.items():
+    for n, (ents, data, _) in streams.items():
         objs[n] = L('st', D([(k, v_sx(v)) for k, v in ents]), xb(data))
     for _, ms in ostms:
         for n, v in ms:
